@@ -4,6 +4,7 @@ from C01 import adversarial_upd
 
 
 def run(ctx):
+    gen.INTEGRAL[0] = True          # real-typed weights are integer-valued here: how fractional weights are rounded is C08's subject
     ctx.trusted = ['Coq 8.16.1 kernel; formula theorems: standard real-number axioms; cadence theorem: closed under the global context',
                    'correspondence K-LIK (calculate_likelyhood on installed states incl. parallel edges, self-loops, both orientations listed, rates around 1e-6) and K-CTRL/K-E2E (which evaluation is reported) vs the extracted float model, bit for bit (model ln := OCaml log = glibc log)',
                    'not verified: accuracy of libm log and binary64 rounding: the oracle compares with a python math.fsum evaluation within 1e-9 relative']
